@@ -336,6 +336,14 @@ func mainHistory(seed uint64, rng *Rng, blocks int) *Pilot {
 		if b == 9 || p.R.Chance(1, 8) {
 			p.SameBlockCreateRunCreate()
 		}
+		// ACCEPTED edits of objects that block hooks read (decimals of a pooled denom, fee / reward / protection
+		// policies, whitelist), each followed by a restart point
+		if b == 10 || b == 14 || p.R.Chance(1, 6) {
+			p.AcceptedRedecimal("")
+		}
+		if p.R.Chance(1, 6) {
+			p.AcceptedEdit()
+		}
 		k := 3 + p.R.Intn(6)
 		for i := 0; i < k && len(ps) > 0; i++ {
 			u := p.user()
@@ -472,7 +480,7 @@ func poollessHistory(seed uint64, rng *Rng) *Pilot {
 		return banktypes.NewMsgSend(adm.Addr, u.Addr, sdk.NewCoins(coin("rowan", pow10(40))))
 	}
 	all := []trtypes.Permission{trtypes.Permission_CLP, trtypes.Permission_IBCEXPORT, trtypes.Permission_IBCIMPORT}
-	for b := 0; b < 8; b++ {
+	for b := 0; b < 10; b++ {
 		p.Begin()
 		switch b {
 		case 0: // first readers are transactions: refused for "pool does not exist" after the registry was read
@@ -494,12 +502,18 @@ func poollessHistory(seed uint64, rng *Rng) *Pilot {
 		case 4:
 			p.CreatePool(u, "cdai")
 			swapTo(v, "cusdc", "clp.swap")
+		case 5: // accepted: ceth 18 -> 6 decimals while its pool exists (the block hook prices the pool from it)
+			p.AcceptedRedecimal("ceth")
+			swapTo(u, "ceth", "clp.swap")
 		default:
 			if ps := p.pools(); len(ps) > 0 {
 				p.Swap(u, ps, false)
 				p.AddLiquidity(v, ps[p.R.Intn(len(ps))])
 			}
 			p.EditReadFail()
+			if b == 7 {
+				p.AcceptedRedecimal("cusdc")
+			}
 		}
 		p.End()
 		if b >= 0 {
